@@ -535,3 +535,119 @@ Lemma de_morgan : forall V a b pol,
   narrow V (CNot (CAnd a b)) pol = narrow V (COr (CNot b) (CNot a)) pol /\
   narrow V (CNot (COr a b)) pol = narrow V (CAnd (CNot b) (CNot a)) pol.
 Proof. intros. split; reflexivity. Qed.
+
+(* ------------------------------------------------------------------ *)
+(* `x in "<s>"` *)
+Lemma in_str_infix : forall ch s, In ch s -> str_infix [ch] s = true.
+Proof.
+  intros ch s. induction s as [|b s IH]; intros H; [destruct H|].
+  cbn [str_infix str_prefix]. destruct H as [->|H].
+  - rewrite N.eqb_refl. reflexivity.
+  - rewrite (IH H). apply orb_true_r.
+Qed.
+
+Lemma single_infix_in : forall ch s, str_infix [ch] s = true -> In ch s.
+Proof.
+  intros ch s. induction s as [|b s IH]; intros H; cbn [str_infix str_prefix] in H.
+  - discriminate.
+  - apply orb_true_iff in H. destruct H as [H|H].
+    + rewrite andb_true_r in H. apply N.eqb_eq in H. subst. left. reflexivity.
+    + right. apply IH. exact H.
+Qed.
+
+Lemma chars_py_eq_infix : forall t s, existsb (py_eq (OStr t)) (str_chars s) = true -> str_infix t s = true.
+Proof.
+  intros t s H. apply existsb_exists in H. destruct H as [x [Hin Hx]].
+  unfold str_chars in Hin. apply in_map_iff in Hin. destruct Hin as [ch [<- Hch]].
+  simpl in Hx. apply (list_eqb_eq N N.eqb N.eqb_eq) in Hx. subst t. apply in_str_infix. exact Hch.
+Qed.
+
+Lemma chars_atomic : forall s, forallb atomic (str_chars s) = true.
+Proof. induction s; simpl; [reflexivity|assumption]. Qed.
+
+Lemma instr_member_kept : forall s sv pol o,
+  wf_obj o = true -> member_s o sv = true -> holds_instr s o = Some pol -> nonelementwise_container s o = false ->
+  member o (pred_instr_with model_in_arg s sv pol) = true.
+Proof.
+  intros s sv pol o Hw Hm Hh Hg. destruct o as [| | | |t| | | | | |]; try discriminate.
+  simpl in Hh. injection Hh as Hh. unfold pred_instr_with, model_in_arg.
+  assert (Hin : forall b, sbase sv = b -> is_known_b b = false ->
+                member (OStr t) (pred_in (str_chars s) sv pol) = true).
+  { intros b Eb Hk. destruct pol.
+    - apply (in_pos_sound (str_chars s) (chars_atomic s) sv (OStr t) Hm).
+      simpl in Hg. rewrite Hh in Hg. simpl in Hg. apply negb_false_iff in Hg. apply Nat.eqb_eq in Hg.
+      destruct t as [|ch [|ch2 t]]; try discriminate.
+      unfold str_chars. apply in_map_iff. exists ch. split; [reflexivity|]. apply single_infix_in. exact Hh.
+    - apply (in_neg_sound (str_chars s) sv (OStr t) Hm). split; [exact Hw|].
+      destruct (existsb (py_eq (OStr t)) (str_chars s)) eqn:E; [|reflexivity].
+      apply chars_py_eq_infix in E. congruence. }
+  destruct (sbase sv) as [|l|c|c|ms|g] eqn:Eb; try (apply (Hin _ eq_refl); reflexivity).
+  pose proof (member_s_base (OStr t) sv Hm) as Hb. rewrite Eb in Hb. simpl in Hb.
+  destruct l as [| | | |t'| | | | | |]; try discriminate. apply (list_eqb_eq N N.eqb N.eqb_eq) in Hb. subst t'.
+  rewrite Hh. rewrite Bool.eqb_reflx. rewrite member_single. exact Hm.
+Qed.
+
+(* keeps-value for `x in "<s>"` / `x not in "<s>"`, under the clause *)
+Lemma instr_keeps_value_partial : forall V s pol o,
+  wf_obj o = true -> member o V = true -> holds_instr s o = Some pol -> nonelementwise_container s o = false ->
+  member o (instr_narrow V s pol) = true.
+Proof.
+  intros V s pol o Hw Hm Hh Hg. apply member_in in Hm. destruct Hm as [sv [Hin Hs]].
+  unfold instr_narrow, instr_narrow_with. apply (member_flat_map o _ V sv Hin).
+  apply instr_member_kept; assumption.
+Qed.
+
+(* Literal members are tested with the container's own __contains__: they survive without any clause *)
+Lemma instr_literals_kept : forall V s pol o,
+  all_known V = true -> member o V = true -> holds_instr s o = Some pol ->
+  member o (instr_narrow V s pol) = true.
+Proof.
+  intros V s pol o Hk Hm Hh. apply member_in in Hm. destruct Hm as [sv [Hin Hs]].
+  unfold instr_narrow, instr_narrow_with. apply (member_flat_map o _ V sv Hin).
+  unfold all_known in Hk. rewrite forallb_forall in Hk. pose proof (Hk sv Hin) as Hsv.
+  destruct o as [| | | |t| | | | | |]; try discriminate. simpl in Hh. injection Hh as Hh.
+  unfold pred_instr_with, model_in_arg.
+  destruct (sbase sv) as [|l|c|c|ms|g] eqn:Eb; try discriminate.
+  pose proof (member_s_base (OStr t) sv Hs) as Hb. rewrite Eb in Hb. simpl in Hb.
+  destruct l as [| | | |t'| | | | | |]; try discriminate. apply (list_eqb_eq N N.eqb N.eqb_eq) in Hb. subst t'.
+  rewrite Hh. rewrite Bool.eqb_reflx. rewrite member_single. exact Hs.
+Qed.
+
+Definition s_abc : list N := [97; 98; 99]%N.
+Definition s_ab : list N := [97; 98]%N.
+
+(* the unchanged tree: `x: str`, `x in "abc"` narrows to Literal['a','b','c'] and loses 'ab' *)
+Lemma nonelementwise_container_refuted :
+  exists V s o, wf_obj o = true /\ member o V = true /\ holds_instr s o = Some true /\ nonelementwise_container s o = true /\ member o (instr_narrow V s true) = false.
+Proof. exists [plain (VTyped CStr)], s_abc, (OStr s_ab). vm_compute. repeat split. Qed.
+
+(* the round-4 seed: handing the iterated elements to InPredicate loses a Literal member *)
+Lemma instr_elements_rule_refuted :
+  exists V s o, all_known V = true /\ member o V = true /\ holds_instr s o = Some true /\ member o (instr_narrow_with ArgElements V s true) = false.
+Proof. exists [plain (VKnown (OStr s_ab)); plain (VKnown (OStr [99%N]))], s_abc, (OStr s_ab). vm_compute. repeat split. Qed.
+
+(* a constraint applied to another variable than the tested one: the main theorem's hypothesis (the condition was
+   evaluated on the object bound to the narrowed variable) is exactly what fails *)
+Lemma leak_keeps_value_guarded : forall V c pol o,
+  member o V = true -> holds c o = Some pol -> c02_guard c o = true -> member o (leak_narrow V c pol) = true.
+Proof. intros. unfold leak_narrow. apply narrow_keeps_value_partial; assumption. Qed.
+
+Lemma callee_leak_refuted :
+  exists V c pol o o', member o V = true /\ holds c o' = Some pol /\ c02_guard c o' = true /\ member o (leak_narrow V c pol) = false.
+Proof. exists [plain (VTyped CStr)], (CIsInstance [CInt]), true, (OStr s_ab), (OInt 1). vm_compute. repeat split. Qed.
+
+(* `case [int(), *rest] as p`: without sub-patterns the as-name keeps the subject, with them it may lose it *)
+Lemma as_bound_without_subpatterns : forall V whole o,
+  member o V = true -> holds whole o = Some true -> c02_guard (CAnd whole CAlways) o = true ->
+  member o (as_bound V whole CAlways) = true.
+Proof.
+  intros V whole o Hm Hh Hg. unfold as_bound. apply narrow_keeps_value_partial; [exact Hm| |exact Hg].
+  simpl. rewrite Hh. reflexivity.
+Qed.
+
+Lemma subpattern_on_subject_refuted :
+  exists V whole sub o, member o V = true /\ holds whole o = Some true /\ c02_guard whole o = true /\ member o (as_bound V whole sub) = false.
+Proof.
+  exists [plain (VTyped CTuple)], (match_seq [EWild] true [] ), (CIsInstance [CInt]), (OTuple [LInt 1; LInt 2]).
+  vm_compute. repeat split.
+Qed.
